@@ -310,25 +310,42 @@ def h_create(ex, recv, args, kwargs, st, fr, node):
     return None
 
 
-def on_compare(ex, node, l, r, st, fr):
-    pass
+def h_sendTickets(ex, recv, args, kwargs, st, fr, node):
+    gset(st, 'tickets_sent')
+    gset(st, 'snapshot_current', False)
+    gset(st, 'digest_current', False)
+    ex.havoc_call('_serverSendTickets', st)
+    return [Outcome('normal', st, fresh_opaque('tickets'))]
+
+
+def store_first_hashes(ex, obj, val, st, fr, node):
+    # C16: post-handshake authentication signs  Transcript-Hash(handshake .. client Finished || CertificateRequest || ...);
+    # both ends keep a snapshot of the transcript taken right after the client Finished -- before NewSessionTickets
+    snap = st.ghost.get('snapshot')
+    OB(ex, st, 'pha-base:_first_handshake_hashes-is-a-snapshot-taken-after-the-client-Finished-and-before-any-NewSessionTicket',
+       snap is not None and z3.And(gb(st, 'got_fin'), z3.Not(gb(st, 'tickets_sent')), gb(st, 'snapshot_current'), T(val) == T(snap)))
+    gset(st, 'fhh_stored')
 
 
 SPEC = M2Spec(hooks={'_sendError': h_sendError, '_getMsg': h_getMsg, 'copy': h_copy, 'digest': h_digest,
                      'secureHMAC': h_secureHMAC, '_queue_flush': h_queue_flush, '_queue_message': h_queue_message,
                      'verify_binder': h_verify_binder, 'time': h_time, '_tryDecrypt': h_tryDecrypt, 'ver_func': h_ver_func, 'calcVerifyBytes': h_calcVerifyBytes,
-                     'getEndEntityPublicKey': h_getkey, '_sigHashesToList': h_sigHashesToList, 'create': h_create},
+                     'getEndEntityPublicKey': h_getkey, '_sigHashesToList': h_sigHashesToList, 'create': h_create,
+                     '_serverSendTickets': h_sendTickets},
+              on_store={'_first_handshake_hashes': store_first_hashes},
               pure={'getExtension', 'toRepr', 'getHash', 'getPadding', 'isinstance', 'len', 'HKDF_expand_label',
                     'derive_secret', 'decode', '_getPRFParams', 'getattr', 'getNumCerts'})
 
 
 def _check(api):
     api.oblige(api.entry, 'has-normal-exit', len(api.normal_exits()) >= 1)
+    for o in api.normal_exits():
+        api.oblige(o.st, 'pha-base:_first_handshake_hashes-stored-before-completion', gb(o.st, 'fhh_stored'))
     api.oblige(api.entry, 'cover:three-_getMsg-sites,PSK-announcement-and-Session.create-reached',
                COUNT['getmsg'] >= 3 and COUNT['psk_create'] >= 1 and COUNT['session_create'] >= 1)
 
 
-m2task('_serverTLS13Handshake/client-auth-psk-and-flight-order', ('C05', 'C06', 'C13'), TC + '_serverTLS13Handshake', SPEC,
+m2task('_serverTLS13Handshake/client-auth-psk-and-flight-order', ('C05', 'C06', 'C13', 'C16'), TC + '_serverTLS13Handshake', SPEC,
        check=_check, opts={'ground_feasible': True, 'loop_preserved_names': True},
        doc='TLS 1.3 server: client chain recorded only when proved by CertificateVerify (key of that chain, signature of the '
            'received message, transcript snapshot before it, accepted scheme) or taken from a binder-verified ticket; PSK '
